@@ -271,7 +271,7 @@ def run_C04(run):
              "Pregex('a\\ufe0f')", "AnyFrom('\\u0301')", "Pregex('}')", "Pregex('a{2}')", "Indefinite('a')", "OneOrMore('a')", "Optional('a', False)", "Indefinite(AnyDigit())", "AtLeastAtMost('ab', 1, 2)", "AtLeast('a', 2)",
              "AtMost('a', 2, False)", "Indefinite(Either('a', 'b'))", "OneOrMore(Capture('a'))", "Indefinite(Indefinite('a'))", "Exactly('a', 2)",
              "Optional(Optional('a'))", "OneOrMore('ab', False)", "Indefinite(Group('ab'))"]
-    for a in dsl.safe_atoms([(e, None) for e in extra], run):
+    for a in dsl.safe_atoms([(e, None) for e in extra] + al.confuser_atoms(), run):
         descs.setdefault(explore.h64(a.key()), explore.desc(a))
     dl = list(descs.values())
     total = {}
